@@ -253,8 +253,10 @@ impl<B: Buffer> Editor<B> {
 #[cfg(feature = "verif-hooks")]
 impl<B: Buffer> Editor<B> {
     /// (whole buffer, valid, cursor)
+    // casts: the accessors keep compiling (and keep their signature) if a change narrows the field types
+    #[allow(clippy::unnecessary_cast)]
     pub fn __verif_state(&self) -> (&[u8], usize, usize) {
-        (self.buffer.as_slice(), self.valid, self.cursor)
+        (self.buffer.as_slice(), self.valid as usize, self.cursor as usize)
     }
 
     /// Hash over every field of the struct (the buffer contributes what its own `Hash` impl chooses)
@@ -266,8 +268,9 @@ impl<B: Buffer> Editor<B> {
     }
 
     /// Overwrite bytes that are not part of the line
+    #[allow(clippy::unnecessary_cast)]
     pub fn __verif_poison(&mut self, byte: u8) {
-        let valid = self.valid;
+        let valid = self.valid as usize;
         self.buffer.as_slice_mut()[valid..].fill(byte);
     }
 }
